@@ -82,7 +82,7 @@ def classify(want, got):
         if got.startswith("CRASH") or got == "TIMEOUT":
             return "crash"
         return "driver:" + got[:40]
-    if not isinstance(got, list) or len(got) != 3:
+    if not isinstance(got, list) or len(got) < 3:
         return "malformed"
     if [e[:2] for e in want[0]] != [e[:2] for e in got[0]]:
         return "blocks"                      # different blocks / order
@@ -127,7 +127,7 @@ def run(tier, seed):
     n_exh = len(progs)
     phase = {"tlc_exhaustive": round(time.time() - t0, 1)}
     scfg, sdepth, smax, stake, sdesc = T["sim"]
-    r = core.tlc_simulate("ExcState", scfg, seconds=90 if tier == "quick" else 600, depth=sdepth, workers=1, seed=seed,
+    r = core.tlc_simulate("ExcState", scfg, seconds=300 if tier == "quick" else 900, depth=sdepth, workers=1, seed=seed,
                           max_records=smax)
     if not r.ok:
         core.die("TLC simulation failed (%s): %s" % (r.violation, r.out[-3000:]))
@@ -264,11 +264,26 @@ def run(tier, seed):
     gotC = [None] * len(cases)
     build_failures = 0
 
+    def parse(o):
+        return json.loads(o) if isinstance(o, str) and o.startswith("[") else o
+
     def run_mod(mb):
         m, b = mb
         idx = [i for k in m["keys"] for i in case_idx[k]]
         cl = [["RUN", [names[cases[i][0]], cases[i][1]["outer"]], True] for i in idx]
-        return idx, calls.run_calls(b, cl, prelude=lib_exc.RUN_SOURCE, timeout=600)
+        out = [None] * len(cl)
+        start = restarts = 0
+        while True:
+            obs = [parse(o) for o in calls.run_calls(b, cl[start:], prelude=lib_exc.RUN_SOURCE, timeout=600, tag="r%d" % restarts)]
+            # a call that finds a stale handled exception on entry runs in a process polluted by an earlier call (which is
+            # reported by its own exc_info-after-the-call): repeat it and the rest in a fresh process
+            bad = next((j for j, g in enumerate(obs) if j > 0 and isinstance(g, list) and len(g) == 4 and g[3] != "-"), None)
+            if bad is None or restarts >= 25:
+                out[start:] = obs
+                return idx, out, restarts
+            out[start:start + bad] = obs[:bad]
+            start += bad
+            restarts += 1
 
     okmods = []
     for m, b in zip(mods, builds):
@@ -279,9 +294,10 @@ def run(tier, seed):
         else:
             okmods.append((m, b))
     with concurrent.futures.ThreadPoolExecutor(jobs or core.NCPU) as ex:
-        for idx, obs in ex.map(run_mod, okmods):
+        for idx, obs, restarts in ex.map(run_mod, okmods):
+            tot["restarts"] += restarts
             for i, o in zip(idx, obs):
-                gotC[i] = json.loads(o) if isinstance(o, str) and o.startswith("[") else o
+                gotC[i] = o
 
     phase["compiled_calls"] = round(time.time() - t2, 1)
     replays = 0
@@ -311,7 +327,7 @@ def run(tier, seed):
         "traces_validated_against_impl": replays,
         "evaluations": len(cases) + replays, "distinct_nontrivial": len(nontrivial),
         "programs": len(keys), "programs_exhaustive": n_exh, "programs_from_simulation": taken, "modules": len(mods),
-        "build_failures": build_failures, "phase_wall_s": phase,
+        "build_failures": build_failures, "phase_wall_s": phase, "process_restarts_after_pollution": tot["restarts"],
         "exhaustive": False,
         "action_coverage": dict(action_cov), "case_classes": dict(classes), "handler_shapes_rendered": dict(shape_cov),
         "disagreement_classes": dict(obs_classes), "binding_selftest": selftest,
